@@ -125,7 +125,7 @@ def arg_strategy():
         ),
     )
     # child elements: block ones, ones that have a conventional position inside their parent, any catalogue element
-    FIRSTISH = ["title", "desc", "caption", "legend", "summary", "figcaption", "thead", "head", "source", "col"]
+    FIRSTISH = ["title", "desc", "title", "desc", "caption", "legend", "summary", "figcaption", "thead", "head", "source", "col"]
     tagchild = st.builds(
         lambda n, ws, txt: {"k": "tag", "name": n, "ws": ws, "attrs": [], "kids": [{"k": "text", "s": txt}] if txt else []},
         st.one_of(st.sampled_from(["div", "p", "ul", "section"]), st.sampled_from(FIRSTISH), st.sampled_from(FIRSTISH), st.sampled_from(gen.catalogue_names())),
@@ -218,6 +218,7 @@ def body_args(case, note):
          "block-element-child" if any(p["ws"] for p in tagkids) else "",
          "lone-container-argument" if len(case["args"]) == 1 and case["args"][0][0] == "c" and case["args"][0][1]["k"] == "list" else "",
          "colliding-keywords-without-dict" if len({gen.norm_attr_name(k) for k, _ in case["kw"]}) < len(case["kw"]) and not any(k == "d" for k, _ in case["args"]) else "",
+         "title-or-desc-child-not-first" if any(k == "c" and p["k"] == "tag" and p["name"] in ("title", "desc") and i > 0 and any(k2 == "c" for k2, _ in case["args"][:i]) for i, (k, p) in enumerate(case["args"])) else "",
          "title/desc/caption-child-not-first" if any(k == "c" and p["k"] == "tag" and p["name"] in ("title", "desc", "caption", "legend", "summary") and i > 0 and any(k2 == "c" for k2, _ in case["args"][:i]) for i, (k, p) in enumerate(case["args"])) else "")
 
 
@@ -236,5 +237,5 @@ RULE = (
 
 CLAUSES = [
     Clause("catalogue", body_catalogue, source="enum", enum=enum_catalogue, shards_quick=2, shards_thorough=4, required=("mod:tags", "mod:svg", "mod:top", "inline", "block"), rule="every function"),
-    Clause("args", body_args, strategy=arg_strategy, quick=150, thorough=1500, shards_quick=4, required=("explicit-ws", "default-ws", "block-element-child", "title/desc/caption-child-not-first", "lone-container-argument", "colliding-keywords-without-dict"), rule="see RULE"),
+    Clause("args", body_args, strategy=arg_strategy, quick=300, thorough=1500, shards_quick=4, required=("explicit-ws", "default-ws", "block-element-child", "title/desc/caption-child-not-first", "title-or-desc-child-not-first", "lone-container-argument", "colliding-keywords-without-dict"), rule="see RULE"),
 ]
